@@ -388,7 +388,21 @@ pub fn finish(cfg: &Cfg, meta: &PropMeta, report: Report, started: Instant, veri
     let replay_mode = cfg.only_case.is_some();
     // sub-runs under an interpreter / sanitizer at a tiny work factor (tools/extra_passes.sh) are judged on reports, not on volume
     let floor = if std::env::var("HV_NO_FLOOR").is_ok() { 1 } else { meta.floor };
-    let inconclusive = !report.harness_errors.is_empty() || (!replay_mode && report.evaluations < floor) || (!replay_mode && report.distinct.len() < 2 && floor > 1);
+    let mut inconclusive = !report.harness_errors.is_empty() || (!replay_mode && report.evaluations < floor) || (!replay_mode && report.distinct.len() < 2 && floor > 1);
+    // Coverage anomaly: at the default work factor the number of evaluations is a property of the workload (it varies by a few
+    // percent with the seed). A run that evaluated much less than the recorded baseline observed too little to say "held" —
+    // typically because in-domain set-up calls (encrypt, key generation, encode) of many cases failed and their cases ended
+    // early. That is an inconclusive run, never a pass (and never a violation by itself).
+    let mut anomaly: Option<(u64, u64)> = None;
+    if !replay_mode && std::env::var("HV_NO_FLOOR").is_err() && std::env::var("VERIF_SCALE").is_err() {
+        if let Ok(txt) = std::fs::read_to_string(format!("{}/baseline_coverage.json", verif_dir)) {
+            if let Ok(v) = serde_json::from_str::<Value>(&txt) {
+                if let Some(b) = v.get(meta.id).and_then(|x| x.get(cfg.tier.name())).and_then(|x| x.as_u64()) {
+                    if (report.evaluations as f64) < 0.75 * b as f64 { anomaly = Some((report.evaluations, b)); inconclusive = true; }
+                }
+            }
+        }
+    }
     let mut cov = Map::new();
     cov.insert("evaluations".into(), json!(report.evaluations));
     cov.insert("distinct_nontrivial".into(), json!(report.distinct.len()));
@@ -434,6 +448,7 @@ pub fn finish(cfg: &Cfg, meta: &PropMeta, report: Report, started: Instant, veri
     if !unlisted.is_empty() { Outcome { exit_code: 1 } }
     else if inconclusive {
         println!("INCONCLUSIVE property={} harness_errors={} evaluations={} floor={}", meta.id, report.harness_errors.len(), report.evaluations, meta.floor);
+        if let Some((e, b)) = anomaly { println!("  coverage anomaly: {} evaluations, the recorded baseline for this tier is {} (below 75%): too many cases ended before their checks", e, b); }
         Outcome { exit_code: 2 }
     } else { Outcome { exit_code: 0 } }
 }
